@@ -20,6 +20,8 @@ hmod!(pub(crate) c08, "c08.rs");
 hmod!(pub(crate) c08b, "c08b.rs");
 #[cfg(not(feature = "shuttle"))]
 hmod!(pub(crate) c15, "c15.rs");
+#[cfg(not(feature = "shuttle"))]
+hmod!(pub(crate) c17, "c17.rs");
 
 #[test]
 fn selftest() {
